@@ -130,6 +130,24 @@ Theorem c15_never_crashes_old_refuted : forall ops, mrun_old [RPeriodic XNil] op
 Proof. exact metric_nil_periodic_old_crashes. Qed.
 Print Assumptions c15_never_crashes_old_refuted.
 
+(** Components used directly (not through a provider), for every operation sequence.
+    A stock span processor: the exporter is shut down by the first Shutdown, exactly once, nothing is
+    exported afterwards, every call returns nil. *)
+Theorem c15_direct_processor : forall k ops, dspec_ok (has_x k) (drun k pst0 ops) = true.
+Proof. intros k ops. apply dspec_ok_model. split; [reflexivity | discriminate]. Qed.
+Print Assumptions c15_direct_processor.
+
+(** A metric reader used directly and through one or two providers (or none): whoever shuts it down
+    first gets nil and the exporter's only Shutdown; everything later reports ErrReaderShutdown. *)
+Theorem c15_direct_reader : forall r reg ops, rspec_ok r reg (rrun r reg rinit ops) = true.
+Proof. intros r reg ops. apply rspec_ok_model. unfold RInv; cbn. repeat split; auto; discriminate. Qed.
+Print Assumptions c15_direct_reader.
+
+(** Processors whose ForceFlush / Shutdown fail: Shutdown still reaches every registered processor. *)
+Theorem c15_failing_processors : forall fails members ops, fspec_ok fails members (frun fails (members, false) ops) = true.
+Proof. intros. apply fspec_ok_model. Qed.
+Print Assumptions c15_failing_processors.
+
 (** Non-vacuity. *)
 Example ex_membership :
   let ops := [TReg 2; TUnreg 0; TStart false; TReg 0; TUnreg 7; TEnd 0; TShutdown false; TStart true] in
@@ -181,4 +199,25 @@ Example ex_rejects_missing_exporter_shutdown :
 Proof. reflexivity. Qed.
 Example ex_rejects_double_log_shutdown :
   lstorm_ok [LSimple XStd] [2] [2] [ENil; ENil] [] = false.
+Proof. reflexivity. Qed.
+Example ex_direct :
+  map (fun x => o_xcalls (snd x)) (drun (PBatch XStd) pst0 [DOnEnd; DFlush; DOnEnd; DShutdown; DShutdown; DOnEnd; DFlush]) =
+    [[]; [(0, KExport)]; []; [(0, KExport); (0, KXShutdown)]; []; []; []].
+Proof. reflexivity. Qed.
+Example ex_rejects_direct_double_shutdown :
+  dspec_ok true [(DShutdown, robs ENil [(0, KXShutdown)] false); (DShutdown, robs ENil [(0, KXShutdown)] false)] = false.
+Proof. reflexivity. Qed.
+Example ex_reader_two_providers :
+  map (fun x => o_err (snd x)) (rrun (RPeriodic XStd) 2 rinit [ROCollect; ROPShutdown true; ROPShutdown false; ROShutdown; ROCollect; ROFlush]) =
+    [ENil; ENil; EShut; EShut; EShut; EShut].
+Proof. reflexivity. Qed.
+Example ex_rejects_reader_shut_twice :
+  rspec_ok (RPeriodic XStd) 1 [(ROShutdown, robs ENil [(0, KXShutdown)] false); (ROPShutdown false, robs ENil [(0, KXShutdown)] false)] = false.
+Proof. reflexivity. Qed.
+Example ex_failing :
+  map (fun x => (o_err (snd x), o_calls (snd x))) (frun (fun p => p =? 1) ([0; 1; 2], false) [FFlush; FShutdown]) =
+    [(EOther, [(0, KFlush); (1, KFlush)]); (EOther, [(0, KShutdown); (1, KShutdown); (2, KShutdown)])].
+Proof. reflexivity. Qed.
+Example ex_rejects_shutdown_stopping_at_failure :
+  fspec_ok (fun p => p =? 1) [0; 1; 2] [(FShutdown, fobs EOther [(0, KShutdown); (1, KShutdown)])] = false.
 Proof. reflexivity. Qed.
